@@ -518,8 +518,11 @@ def check_path(spec, inst, st, res, rng, tr, seeds, angle_pins, g):
         # (weaker hypotheses: unsat is still a proof; the seed remains the reachability witness); counted in the evidence
         pcm = eopt.get("pc_max_terms", inst.get("pc_max_terms"))
         if pcm:
+            def _poly_size(p):     # terms, weighted by the length of their coefficients (1 per term for ordinary coefficients)
+                return sum(1 + (cf.numerator.bit_length() + cf.denominator.bit_length()) // 256 for cf in p.values())
+
             def _lit_size(c):      # the literal plus the defining constraints (roots, inverses, ...) it drags into a query
-                return len(c.p) + sum(len(d.p) for d in enc.closure([c.p])[1])
+                return _poly_size(c.p) + sum(_poly_size(d.p) for d in enc.closure([c.p])[1])
             keep = [(i, c) for i, c in pc if _lit_size(c) <= pcm]
             if len(keep) < len(pc):
                 res.extra["path_literals_left_out_by_size_weaker_hypotheses"] = res.extra.get("path_literals_left_out_by_size_weaker_hypotheses", 0) + len(pc) - len(keep)
